@@ -50,6 +50,9 @@ type Case struct {
 	CancelAt int    `json:"cancel_at"` // chan: cancel before receiving packet number k (-1 never)
 	Stall    bool   `json:"stall"`     // chan: consumer sleeps a long time first so the channel fills
 	Twice    bool   `json:"twice"`     // call Packets() a second time
+	// Concat: the script is served by ConcatFinitePacketDataSources over several member sources; a "memberend" event
+	// (Term eof | wrapped-eof) ends the current member, the next member continues the script
+	Concat bool `json:"concat,omitempty"`
 }
 
 type timeoutErr struct{}
@@ -107,6 +110,22 @@ type src struct {
 	produced         []want
 	terminalSeen     bool
 	readsAfterTerm   int
+	chained          bool
+	curMember        int // Concat: index of the member source that serves the script right now
+}
+
+// member is one of the finite sources handed to ConcatFinitePacketDataSources: all members share the script; member k
+// serves it between the (k-1)th and kth "memberend" event and reports end of input (sticky) from then on.
+type member struct {
+	s *src
+	k int
+}
+
+func (m *member) ReadPacketData() ([]byte, gopacket.CaptureInfo, error) {
+	if m.k != m.s.curMember {
+		return nil, gopacket.CaptureInfo{}, io.EOF
+	}
+	return m.s.read()
 }
 
 func expand(c *Case) []Ev {
@@ -121,9 +140,10 @@ func expand(c *Case) []Ev {
 }
 
 func (s *src) read() ([]byte, gopacket.CaptureInfo, error) {
-	if s.ctx != nil && s.ctx.Err() != nil {
+	if s.ctx != nil && s.ctx.Err() != nil && !s.chained {
 		s.readsAfterCancel++
 	}
+	s.chained = false
 	if s.terminalSeen {
 		s.readsAfterTerm++
 	}
@@ -151,6 +171,13 @@ func (s *src) read() ([]byte, gopacket.CaptureInfo, error) {
 			<-s.release
 			s.blocked.Store(false)
 			continue
+		case "memberend":
+			if !s.c.Concat {
+				continue
+			}
+			s.curMember++
+			s.chained = true // the concatenation goes on to the next member within the same outer read
+			return nil, gopacket.CaptureInfo{}, termErr(ev.Term)
 		case "timeout":
 			return nil, gopacket.CaptureInfo{}, timeoutErr{}
 		case "transient":
@@ -220,6 +247,15 @@ func runCase(t *testing.T, c *Case) (f *vh.Failure) {
 			var ps *gopacket.PacketSource
 			if c.ZeroCopy {
 				ps = gopacket.NewZeroCopyPacketSource(s, gopacket.DecodePayload, opts...)
+			} else if c.Concat {
+				var ms []gopacket.PacketDataSource
+				ms = append(ms, &member{s, 0})
+				for _, e := range evs {
+					if e.K == "memberend" {
+						ms = append(ms, &member{s, len(ms)})
+					}
+				}
+				ps = gopacket.NewPacketSource(gopacket.ConcatFinitePacketDataSources(ms...), gopacket.DecodePayload, opts...)
 			} else {
 				ps = gopacket.NewPacketSource(s, gopacket.DecodePayload, opts...)
 			}
@@ -424,7 +460,12 @@ func runCase(t *testing.T, c *Case) (f *vh.Failure) {
 			case "transient":
 				wantErrs = append(wantErrs, "transient failure")
 			case "terminal":
-				wantErrs = append(wantErrs, termErr(e.Term).Error())
+				if c.Concat && !c.ZeroCopy && errors.Is(termErr(e.Term), io.EOF) {
+					// the last member's end of input: the concatenation reports its own io.EOF
+					wantErrs = append(wantErrs, io.EOF.Error())
+				} else {
+					wantErrs = append(wantErrs, termErr(e.Term).Error())
+				}
 			}
 			if e.K == "terminal" {
 				break
@@ -488,6 +529,16 @@ func genCase(t *rapid.T) *Case {
 		c.Events = append(c.Events[:at], append([]Ev{run}, c.Events[at:]...)...)
 		c.Stall = rapid.Bool().Draw(t, "stall")
 	}
+	if !c.ZeroCopy && rapid.IntRange(0, 2).Draw(t, "concat") == 0 {
+		// serve the script through ConcatFinitePacketDataSources: 1..3 member boundaries anywhere in the script
+		// (also first/last: empty members), each member ending with io.EOF or an error wrapping it
+		c.Concat = true
+		for k := rapid.IntRange(1, 3).Draw(t, "members"); k > 0; k-- {
+			at := rapid.IntRange(0, len(c.Events)).Draw(t, "memberat")
+			end := Ev{K: "memberend", Term: rapid.SampledFrom([]string{"eof", "eof", "wrapped-eof"}).Draw(t, "memberterm")}
+			c.Events = append(c.Events[:at], append([]Ev{end}, c.Events[at:]...)...)
+		}
+	}
 	if rapid.IntRange(0, 3).Draw(t, "explicitterm") > 0 {
 		c.Events = append(c.Events, Ev{K: "terminal", Term: rapid.SampledFrom([]string{"eof", "unexpected", "closedpipe", "ebadf", "wrapped-eof", "closedfile"}).Draw(t, "term")})
 		// events after the terminal error must never be read on the channel interface
@@ -535,6 +586,10 @@ func classify(c *Case) (bool, []string) {
 			cls = append(cls, "blocking-read")
 		case "terminal":
 			cls = append(cls, "terminal:"+e.Term)
+		case "memberend":
+			if c.Concat {
+				cls = append(cls, "concat", "concat-member-ends:"+e.Term)
+			}
 		}
 	}
 	if c.ZeroCopy {
